@@ -311,6 +311,12 @@ func (w *Worker) runItem(it *WorkItem) {
 			case abortPath:
 				outcome = "inconclusive"
 				reason = r.reason
+			case deadlockPanic:
+				in.recordViolation(r.msg)
+				outcome = "violation"
+			case killGoroutine:
+				outcome = "inconclusive"
+				reason = "engine: stray goroutine kill"
 			case engineCrash:
 				outcome = "inconclusive"
 				reason = "engine crash: " + r.msg + " in " + r.where
